@@ -122,6 +122,38 @@ check('C12',
       'Trusted: union-find in vf/props/c12.py; the list of dependent groups documented in connman.py.',
       'DESIGN.md 7 C12')
 
+check('C04',
+      'property-based testing (Hypothesis): stock and generated disturbance schedules x integration configurations; '
+      'a callpert/dae.store monitor records every attempt and every accepted point; oracle = the integration rule '
+      'written out from the property text with a row-wise Newton bound (sharp on tight-tolerance runs), algebraic '
+      'residual bound, bitwise restoration + exact rewind after rejected attempts, step-size and end-time clauses, '
+      'completion of stock stable cases, and error-ratio under step halving against a 16x finer run',
+      'Invariant checking over every accepted step of generated runs plus a metamorphic convergence-order check.',
+      'Trusted: the monitor wrappers in vf/sim.py; f1 is the solver-held derivative (one iterate behind x1), covered '
+      'by the bound 2*tol*sum|Ac_ij|; anti-windup pegged states exempt.',
+      'DESIGN.md 7 C04')
+
+check('C06',
+      'property-based testing (Hypothesis): generated event schedules (Toggle/Fault/Alter, enabled/disabled, time '
+      'classes incl. t0, tf, beyond tf, >10 s, coincident and near-coincident pairs, segment boundaries) x step size x '
+      'fixed/variable step x resumed segments; wrapped timer callbacks and per-step sampling of the targeted fields; '
+      'oracle = pure-Python schedule model (exactly-once firing at the exact time, fold of effects, no change elsewhere) '
+      'and time-grid invariants',
+      'Model-based testing of the event machinery: the reference is a fold over the generated schedule.',
+      'Trusted: vf/sim.py wrappers; when a run stops early only events before the last accepted time are judged.',
+      'DESIGN.md 7 C06')
+
+check('C14',
+      'property-based testing (Hypothesis): generated interruption histories (resume by extending tf, snapshot -> load '
+      'in-process, snapshot -> load in a fresh process) at times drawn around events and off the grid, against an '
+      'uninterrupted twin and a half-step twin; oracle: firing multisets equal, time axis strictly increasing and '
+      'containing every boundary, trajectory within the discretisation estimate, snapshot continuation bitwise equal '
+      'to the in-process continuation; reset()+power flow reproduces the first solution on stock cases',
+      'Metamorphic testing: split run == single run (up to the measured discretisation error), restored run == '
+      'continued run (bitwise).',
+      'Trusted: vf/sim.py wrappers (detached before pickling); dill snapshots as produced by ANDES.',
+      'DESIGN.md 7 C14')
+
 NOT_BUILT = 'check not built yet in this round (machinery in progress; see DESIGN.md section 10 build order)'
 ALL = ['C%02d' % i for i in range(1, 21)]
 
